@@ -6,3 +6,40 @@ Import ListNotations.
     sub-slice relationship, initialisation, uniqueness or encoding): it must be declared `unsafe fn`. *)
 Definition trusts_caller (unchecked safety_doc : bool) : bool := unchecked || safety_doc.
 Definition audit_entry (is_unsafe safety_doc unchecked : bool) : bool := implb (trusts_caller unchecked safety_doc) is_unsafe.
+
+(** ** Sealing of traits (C17: the unchecked adoption of `&str` results trusts the implementors of the pattern traits).
+    Implementing a trait outside the crate requires naming it AND implementing every supertrait; a trait with a supertrait
+    (transitively) that cannot be named outside the crate therefore has no implementors but the crate's own. *)
+Section Sealing.
+  Variable A : Type.
+  Variable name_of : A -> string.
+  Variable nameable_of : A -> bool.
+  Variable supers_of : A -> list string.
+
+  Definition lookup (tbl : list A) (n : string) : option A := find (fun t => String.eqb (name_of t) n) tbl.
+
+  Fixpoint sealed (fuel : nat) (tbl : list A) (n : string) : bool :=
+    match fuel with
+    | O => false
+    | S f => match lookup tbl n with
+             | None => false
+             | Some t => negb (nameable_of t) || existsb (sealed f tbl) (supers_of t)
+             end
+    end.
+
+  (** [n] requires [m]: [m] is [n] or a (transitive) supertrait of [n] *)
+  Inductive requires (tbl : list A) : string -> string -> Prop :=
+  | req_refl n : requires tbl n n
+  | req_step n t s m : lookup tbl n = Some t -> In s (supers_of t) -> requires tbl s m -> requires tbl n m.
+
+  Theorem sealed_sound : forall fuel tbl n, sealed fuel tbl n = true ->
+    exists m t, requires tbl n m /\ lookup tbl m = Some t /\ nameable_of t = false.
+  Proof.
+    induction fuel as [|f IH]; intros tbl n H; cbn [sealed] in H; [discriminate|].
+    destruct (lookup tbl n) as [t|] eqn:L; [|discriminate].
+    apply orb_true_iff in H as [H|H].
+    - exists n, t. split; [constructor|]. split; [exact L|]. now destruct (nameable_of t).
+    - apply existsb_exists in H as (s & Hs & Hse). destruct (IH tbl s Hse) as (m & t' & R & L' & N).
+      exists m, t'. split; [|split; assumption]. eapply req_step; eassumption.
+  Qed.
+End Sealing.
